@@ -15,6 +15,7 @@ def c01ParseKind (k : String) (ps : List Nat) : Option VKind :=
   | "pairfirst", [c] => some (.pairfirst c)
   | "loop", [] => some .loop
   | "overlap", [w] => some (.overlap w)
+  | "overlap2", [wl, wr] => some (.overlap2 wl wr)
   | "downchunk", [c] => some (.downchunk c)
   | "exhaust", [c] => some (.exhaust c)
   | _, _ => none
